@@ -50,6 +50,7 @@ class Replayer(object):
         self.recs = {}  # cassette -> (model id tuple, real recording)
         self.held = {}  # (cassette, model unique name) -> the recording object that cassette saved
         self.close_from = {}  # cassette -> length of the real mutation log when its close() began
+        self.raced = set()    # key prefixes under which a save overlapped the two deletions of another cassette's close
         self.threads = {}  # cassette -> (thread, release event, result box)
         for k in ['unrelated/other', 'tape_recorder_recordings/z/full/f/DAY/n9', 'tape_recorder_recordings/z/metadata/f/DAY/n9']:
             self.store.objects[k.replace('DAY', self.day)] = (b'foreign', pytz.utc.localize(datetime.datetime.utcnow()), {})
@@ -90,6 +91,13 @@ class Replayer(object):
             cas = self.cass.get(c)
             self.store.owner = c
             self._cur = (idx, st)
+            # a save of another cassette with the same prefix overlaps the two deletions of a close: what that race leaves
+            # behind depends on the order of the deletions, and completeness is not claimed for it - the prefix is not
+            # judged for discoverable => fetchable on the rest of this behaviour (a cassette may be used again later)
+            for cc, (_ro, _tr, pp) in self.combo.items():
+                if st['closing'][cc] == 'half' and any(st['inflight'][d]['stage'] != 'none'
+                                                       for d, (_r2, _t2, p2) in self.combo.items() if d != cc and p2 == pp):
+                    self.raced.add(pp)
             try:
                 if k == 'savebegin':
                     cat = ''.join(e['id'][:-4])      # id = category / day / unique part  (a category may itself begin with '/')
@@ -335,7 +343,7 @@ class Replayer(object):
         after, self.store.after = self.store.after, None
         try:
             for c, (ro, tr, p) in self.combo.items():
-                if any(st['closing'][d] != 'no' for d, (_r, _t, p2) in self.combo.items() if p2 == p):
+                if p in self.raced or any(st['closing'][d] != 'no' for d, (_r, _t, p2) in self.combo.items() if p2 == p):
                     continue  # completeness of discoverable recordings is claimed for saves only, not during clean-up
                 reader = make_s3_cassette(self.store, key_prefix=p, read_only=True)
                 n0 = len(self.store.mutations)
